@@ -34,6 +34,30 @@ func (e *Engine) newHelpers(u *Unit, n ast.Node) []*Unit {
 	return out
 }
 
+// pathNodes lists the nodes of block b from index from on as the path queries
+// see them. go/cfg evaluates the communication statements of ALL cases of a
+// select in the block that precedes the select; for a path query that would
+// mean that every path "passes" every case's receive. The comm statement of a
+// case is therefore taken out of that header and put at the head of its own
+// case body.
+func (e *Engine) pathNodes(b *cfg.Block, from int) []ast.Node {
+	var out []ast.Node
+	if from == 0 && b.Kind == cfg.KindSelectCaseBody {
+		if cc, ok := b.Stmt.(*ast.CommClause); ok && cc.Comm != nil {
+			out = append(out, cc.Comm)
+		}
+	}
+	for i := from; i < len(b.Nodes); i++ {
+		if st, ok := b.Nodes[i].(ast.Stmt); ok {
+			if _, isComm := e.SelectOf[st]; isComm {
+				continue
+			}
+		}
+		out = append(out, b.Nodes[i])
+	}
+	return out
+}
+
 // mustContain: n satisfies pred itself, or calls a new helper all of whose paths pass pred.
 func (e *Engine) mustContain(u *Unit, n ast.Node, pred func(ast.Node) bool, depth int) bool {
 	if Contains(n, pred) {
@@ -183,8 +207,7 @@ func (e *Engine) exitWithout(u *Unit, start Point, target func(ast.Node) bool, s
 		stack = stack[:len(stack)-1]
 		b := it.p.B
 		hit := false
-		for i := it.p.I; i < len(b.Nodes); i++ {
-			n := b.Nodes[i]
+		for _, n := range e.pathNodes(b, it.p.I) {
 			if e.mustContain(u, n, target, depth) || (stop != nil && e.mustContain(u, n, stop, depth)) {
 				hit = true
 				break
@@ -221,8 +244,7 @@ func (e *Engine) Reaches(u *Unit, start Point, target func(ast.Node) bool, block
 		stack = stack[:len(stack)-1]
 		b := it.p.B
 		blocked := false
-		for i := it.p.I; i < len(b.Nodes); i++ {
-			n := b.Nodes[i]
+		for _, n := range e.pathNodes(b, it.p.I) {
 			if e.mayContain(u, n, target, 0) {
 				tr := &traceNode{prev: it.trace, msg: fmt.Sprintf("reaches %s", e.pos(n.Pos()))}
 				return PathResult{Found: true, Trace: tr.list()}
